@@ -462,6 +462,30 @@ func (a *Arith) lenLin(x ssa.Value, d int) Lin {
 		if y.Value != nil && y.Value.Kind() == constant.String {
 			return linConst(int64(len(constant.StringVal(y.Value))))
 		}
+		if y.Value == nil {
+			if _, isSl := y.Type().Underlying().(*types.Slice); isSl {
+				return linConst(0) // len(nil slice)
+			}
+		}
+	case *ssa.Call:
+		// a module function whose result length is a fixed linear form of its parameters' lengths
+		// (clone, concat: make([]T, len(a)+len(b)))
+		if sc := y.Call.StaticCallee(); sc != nil && d < 6 {
+			if sum, ok := a.m.lenSummary(sc); ok {
+				res := linConst(sum.c)
+				okAll := true
+				for pi, coef := range sum.params {
+					if pi >= len(y.Call.Args) {
+						okAll = false
+						break
+					}
+					res = res.add(a.lenLin(y.Call.Args[pi], d+1).scale(coef), 1)
+				}
+				if okAll {
+					return res
+				}
+			}
+		}
 	}
 	k := "len:" + a.canonKey(x)
 	a.lenOf[k] = x
@@ -712,6 +736,12 @@ func (a *Arith) axioms(form Lin, seen map[string]bool) []Ineq {
 				case "max":
 					for _, arg := range x.Call.Args {
 						out = append(out, mkIneq(a.lin(arg).add(linAtom(k), -1), 0))
+					}
+				case "copy":
+					// n := copy(dst, src): 0 <= n <= len(dst), n <= len(src)
+					out = append(out, Ineq{linAtom(k).scale(-1), 0})
+					for _, arg := range x.Call.Args {
+						out = append(out, mkIneq(linAtom(k).add(a.lenLin(arg, 0), -1), 0))
 					}
 				}
 			}
@@ -1554,4 +1584,73 @@ func (a *Arith) mapRangeCounter(phi *ssa.Phi) ssa.Value {
 		}
 	}
 	return mp
+}
+
+// lenSum: len(result) = c + sum coef_i * len(param_i).
+type lenSum struct {
+	c      int64
+	params map[int]int64
+}
+
+// lenSummary: fn returns one slice whose length, on every return, is the same linear form of the lengths of its
+// slice/string parameters (evaluated with fn's own Arith: make, calls to functions with summaries, nil).
+func (m *Model) lenSummary(fn *ssa.Function) (lenSum, bool) {
+	if m.lenSums == nil {
+		m.lenSums = map[*ssa.Function]*lenSum{}
+		m.lenSumBusy = map[*ssa.Function]bool{}
+	}
+	if s, ok := m.lenSums[fn]; ok {
+		if s == nil {
+			return lenSum{}, false
+		}
+		return *s, true
+	}
+	if m.lenSumBusy[fn] || fn.Blocks == nil || !m.InModule(fn) || fn.Signature.Results().Len() != 1 {
+		return lenSum{}, false
+	}
+	if _, isSl := fn.Signature.Results().At(0).Type().Underlying().(*types.Slice); !isSl {
+		return lenSum{}, false
+	}
+	m.lenSumBusy[fn] = true
+	defer delete(m.lenSumBusy, fn)
+	a := m.NewArith(fn)
+	var got *lenSum
+	okAll := true
+	for _, b := range fn.Blocks {
+		ret, isRet := b.Instrs[len(b.Instrs)-1].(*ssa.Return)
+		if !isRet {
+			continue
+		}
+		l := a.lenLin(ret.Results[0], 0)
+		cur := lenSum{c: l.C, params: map[int]int64{}}
+		for k, coef := range l.T {
+			matched := false
+			for pi, p := range fn.Params {
+				if k == "len:"+a.canonKey(p) {
+					cur.params[pi] += coef
+					matched = true
+				}
+			}
+			if !matched {
+				okAll = false
+			}
+		}
+		if got == nil {
+			got = &cur
+		} else if got.c != cur.c || len(got.params) != len(cur.params) {
+			okAll = false
+		} else {
+			for pi, coef := range cur.params {
+				if got.params[pi] != coef {
+					okAll = false
+				}
+			}
+		}
+	}
+	if !okAll || got == nil {
+		m.lenSums[fn] = nil
+		return lenSum{}, false
+	}
+	m.lenSums[fn] = got
+	return *got, true
 }
